@@ -338,6 +338,15 @@ def check(ctx):
     run_method(ctx, 'compute_J', 'J')
     run_method(ctx, 'compute_Zj', 'Z')
     check_evaluate(ctx)
+    # the function that is differenced is the model's rate equation S_net * rate (C03 R3.4) - re-emitted here
+    from ..core import SubCtx
+    from . import c03
+    for m in ('simulator', 'simulator.pxd'):
+        ctx.prog.mod(m)
+    sub = SubCtx(ctx)
+    c03.check_derivative(sub)
+    for rule, key, ok, where, what, detail in sub.got:
+        ctx.ob('R18.3-rate-equations', '%s/%s' % (rule, key), ok, where, what, detail)
     ctx.floor('R18.1-stencil', 8)
     ctx.floor('R18.2-orientation', 8)
     ctx.floor('R18.4-restore', 8)
